@@ -78,6 +78,20 @@ def transform_taint(repo: Repo, c: Cls) -> Dict[Func, Set[str]]:
     return {f: tainted_names(f, s) for f, s in seeds.items()}
 
 
+def _user_supplied(repo: Repo, c: Cls, attr: str):
+    """Name of the constructor parameter that some method of c stores unchanged in self.<attr>, if any."""
+    init = repo.resolve_method(c, "__init__")
+    params = set(init.params) if init is not None else set()
+    for k in repo.mro(c):
+        if isinstance(k, str):
+            continue
+        for g in k.methods.values():
+            for n in walk_no_nested(g.node):
+                if isinstance(n, ast.Assign) and any(is_self_attr(t, attr) for t in n.targets) and is_self_attr(n.value) and n.value.attr in params:
+                    return n.value.attr
+    return None
+
+
 # --------------------------------------------------------------------------- R1.1
 def r1_1(repo: Repo) -> RuleResult:
     rr = RuleResult(
@@ -115,6 +129,21 @@ def r1_1(repo: Repo) -> RuleResult:
                         continue
                     raise AnalysisError("R1.1: shape argument `%s` in %s is not a recognisable 2-tuple" % (short(shape), f.key))
                 col = sh.elts[1]
+                # an extent written as len(<label dictionary>) bounds the indices only when the dictionary was
+                # enumerated by the estimator itself; one handed in by the caller may use any indices
+                loose = None
+                for dim in sh.elts:
+                    for x in ast.walk(dim):
+                        if isinstance(x, ast.Call) and norm(x.func) == "len" and x.args and is_self_attr(x.args[0]):
+                            src = _user_supplied(repo, c, x.args[0].attr)
+                            if src:
+                                loose = (x.args[0].attr, src)
+                if loose:
+                    rr.bad(f, construct,
+                           "the extent `len(self.%s)` counts the entries of a dictionary that fit takes over unchanged from the constructor "
+                           "parameter `%s`: a supplied dictionary need not use the indices 0..n-1, so an index can lie outside the matrix "
+                           "(or the matrix is narrower than the fitted one)" % loose, call.lineno)
+                    continue
                 bad = sorted(names_in(col) & t)
                 if bad:
                     rr.bad(f, construct,
